@@ -57,6 +57,11 @@ def run(tier, rng, C):
         base = M(('k', M(('j', kv()), ('sibling', I(1)))))
         later = ('m', [(S('k'), M((rng.choice(['j', 'j', '~j']), kv()))),
                        (S(rng.choice(['=k', '=k', '~k'])), M((rng.choice(['~j', '~j', 'j']), kv()), ('n', I(2))))])
+        if rng.random() < 0.4:
+            # the override spelling first, the plain one second, at the top level of the document too: the key is
+            # then pending-override and two layers deep at once when the document is merged over the earlier ones
+            later = ('m', [(S('~k'), kv()), (S('k'), kv())] + ([(S('o'), I(1))] if rng.random() < 0.5 else []))
+            base = M(('k', kv()), ('other', S('kept')))
         st = [base, later]
         if rng.random() < 0.4:
             st.append(M(('k', M((rng.choice(['j', '~j']), kv())))))
